@@ -56,7 +56,7 @@ Definition row_conf_header (r : string * value * list Z) : bool :=
   | Some d, VStruct _ (hdr :: _) =>
     match t_fields d with
     | fd :: _ =>
-      match conf_ty kmip_schema FUEL None (f_ty fd) (f_tag fd) hdr with
+      match conf_ty kmip_schema kmip_ops kmip_attrs kmip_objs FUEL None (f_ty fd) (f_tag fd) hdr with
       | Some _ => true
       | None =>
         (* a request header carrying an Authentication holds a Credential (hand-written
@@ -66,4 +66,16 @@ Definition row_conf_header (r : string * value * list Z) : bool :=
     | [] => false
     end
   | _, _ => false
+  end.
+
+(** conformance of the whole message: the hypothesis of the message-level round trip *)
+Definition row_conf (r : string * value * list Z) : bool :=
+  let '(root, v, _) := r in
+  match find_tdef kmip_schema root with
+  | Some d =>
+    match conf_ty kmip_schema kmip_ops kmip_attrs kmip_objs FUEL None (TNamed root) (t_deftag d) v with
+    | Some _ => true
+    | None => false
+    end
+  | None => false
   end.
